@@ -233,7 +233,7 @@ class Ctx:
         self.t0 = time.time()
         self.violations = []          # (key, what, replay_path)
         self.known_hits = {}          # finding id -> count
-        self.known = [k for k in load_known_findings() if k["property"] == pid]
+        self.known = [k for k in load_known_findings() if k["property"] == pid or pid in k.get("also", [])]
         self.coverage = {}
         self.assumptions = []
         self.notes = []
